@@ -5,9 +5,16 @@ C: random overload families (exec()ed python functions with random signatures) r
 evaluation.  Observation (payload tag or error class, bound argument tuple, evaluation log) is compared
 with Model/Resolution.call evaluated inside Coq.  O: the same observation against an independent python
 implementation of the documented rules (resolution_common.spec_resolve)."""
-import resolution_common as rc
+import itertools
 
-GEN = []
+import gal
+import gen_registry
+import registry_corpus as rcorp
+import resolution_common as rc
+import yaql
+from yaql.language import expressions, specs, utils, yaqltypes
+
+GEN = ["registry"]
 RULE = ("random families: 1-4 context layers (20% exclusive) x 0-4 overloads each; signatures with 0-4 visible "
         "parameters, hidden engine/context anywhere, defaults, *args, **kwargs, keyword-only (multi-word names, explicit alias=), AnyOf, lazy Lambda/"
         "YaqlExpression/MappingRule, Constant, types from object + 6-class lattice with a diamond, function/method/extension, "
@@ -40,6 +47,149 @@ def pairs(run, n, pid="C05"):
 
 def correspondence(run):
     rc.correspond(run, pairs(run, run.n(2500, 25000)), rc.describe, "C05")
+    stdlib_correspondence(run)
+
+
+# ---- the same correspondence on REAL standard-library definitions -------------------------------------
+SHEADER = "From YV Require Import Model.Resolution Gen.Registry."
+
+
+class _ValueProbe(expressions.Expression):
+    def __init__(self, pid, cls, log):
+        self.pid, self.cls, self.log = pid, cls, log
+        self.uses_receiver = False
+
+    def __call__(self, receiver, context, engine):
+        self.log.append(self.pid)
+        return rcorp.make(self.cls)
+
+
+def _accepted_classes(model, p):
+    t = p.value_type
+    return [c for c in sorted(rcorp.CLASSES) if c != rcorp.KEYWORD_CLASS and model._check(t, rcorp.make(c))]
+
+
+def stdlib_case(rng, model, by_name, index):
+    """one call of a standard-library name with typed arguments -> (json description, scase term) or None"""
+    name = rng.choice(by_name["multi"] if rng.random() < 0.7 else by_name["all"])
+    layers = by_name["layers"][name]
+    cands = [fd for l in layers for fd in l]
+    target = rng.choice(cands)
+    vis = sorted([p for k, p in target.parameters.items() if p.position is not None and k != "*"
+                  and not isinstance(p.value_type, yaqltypes.HiddenParameterType)], key=lambda p: p.position)
+    with_recv = target.is_method and (not target.is_function or rng.random() < 0.5) and bool(vis)
+    ids = itertools.count(1)
+    log = []
+
+    def pick(p):
+        acc = _accepted_classes(model, p) if p is not None else []
+        if acc and rng.random() < 0.75:
+            return rng.choice(acc)
+        return rng.choice(sorted(rcorp.CLASSES))
+
+    def arg_for(p):
+        c = pick(p)
+        if c == rcorp.KEYWORD_CLASS or rng.random() < 0.3:
+            if c == rcorp.KEYWORD_CLASS:
+                return ["const", c], expressions.KeywordConstant(rcorp.make(c))
+            return ["const", c], expressions.Constant(rcorp.make(c))
+        i = next(ids)
+        return ["expr", i, c], _ValueProbe(i, c, log)
+
+    recv_json, receiver = None, utils.NO_VALUE
+    rest = vis
+    if with_recv:
+        c = pick(vis[0])
+        if c == rcorp.KEYWORD_CLASS:
+            c = 3
+        recv_json, receiver = c, rcorp.make(c)
+        rest = vis[1:]
+    r = rng.random()
+    npos = len(rest) if r < 0.6 else rng.randrange(len(rest) + 1) if r < 0.85 else len(rest) + 1
+    jargs, pargs = [], []
+    for i in range(npos):
+        if rng.random() < 0.06:
+            jargs.append(["skip"])
+            pargs.append(utils.NO_VALUE)
+            continue
+        j, o = arg_for(rest[i] if i < len(rest) else target.parameters.get("*"))
+        jargs.append(j)
+        pargs.append(o)
+    if not target.no_kwargs:
+        for p in rest[npos:]:
+            if rng.random() < 0.6:
+                j, o = arg_for(p)
+                kn = p.alias or p.name
+                jargs.append(["map", kn, j])
+                pargs.append(expressions.MappingRuleExpression(expressions.KeywordConstant(kn), o))
+    # stub the payloads so that the observation is WHICH definition ran
+    saved = [(fd, fd.payload) for fd in cands]
+    for fd in cands:
+        fd.payload = (lambda i: (lambda *a, **k: ("ran", i)))(index[id(fd)])
+    try:
+        try:
+            res = model.ctx(name, model.engine, receiver)(*pargs)
+            obs = ["chosen", res[1]] if isinstance(res, tuple) and res and res[0] == "ran" else ["foreign", repr(type(res))]
+        except Exception as e:
+            en = rc.ERR.get((type(e), with_recv))
+            obs = ["err", en] if en else ["foreign", type(e).__name__]
+    finally:
+        for fd, pl in saved:
+            fd.payload = pl
+
+    def aterm(j):
+        if j[0] == "const":
+            return "(AConst (VObj %d))" % j[1]
+        if j[0] == "expr":
+            return "(AExpr %s (VObj %d))" % (gal.z(j[1]), j[2])
+        if j[0] == "skip":
+            return "ANoValue"
+        inner = j[2]
+        if inner[0] == "const":
+            return "(AMapC %s (VObj %d))" % (gal.z(model.ncode(j[1])), inner[1])
+        return "(AMapE %s %s (VObj %d))" % (gal.z(model.ncode(j[1])), gal.z(inner[1]), inner[2])
+
+    args_t = (["(ARaw (VObj %d))" % recv_json] if with_recv else []) + [aterm(j) for j in jargs]
+    desc = {"name": name, "receiver_class": recv_json, "args": jargs, "observed": obs, "log": list(log),
+            "candidates": [index[id(fd)] for fd in cands]}
+    if obs[0] == "foreign":
+        return desc, None
+    term = "{| s_layers := %s; s_recv := %s; s_args := %s; s_kwargs := []; s_chosen := %s; s_err := %s; s_log := %s |}" % (
+        gal.lst(gal.pair(gal.natlist(index[id(fd)] for fd in l), "false") for l in layers), gal.boolean(with_recv),
+        gal.lst(args_t), "(Some %s)" % gal.z(obs[1]) if obs[0] == "chosen" else "None",
+        obs[1] if obs[0] == "err" else "ENoMatch", gal.zlist(log))
+    return desc, term
+
+
+def stdlib_setup():
+    model = gen_registry.Model()
+    index = {id(fd): i for i, (fd, _) in enumerate(model.defs)}
+    nlayers = max(l for _, l in model.defs) + 1
+    layers = {}
+    for fd, l in model.defs:
+        layers.setdefault(fd.name, [[] for _ in range(nlayers)])[l].append(fd)
+    names = sorted(layers)
+    by_name = {"layers": layers, "all": names, "multi": [n for n in names if sum(len(l) for l in layers[n]) > 1]}
+    return model, by_name, index
+
+
+def stdlib_correspondence(run):
+    model, by_name, index = stdlib_setup()
+    cases, meta = [], []
+    for _ in range(run.n(1500, 20000)):
+        desc, term = stdlib_case(run.rng, model, by_name, index)
+        run.case(("stdlib", desc["name"], desc["receiver_class"], desc["args"]), nontrivial=len(desc["candidates"]) > 1)
+        run.count("stdlib:" + (desc["observed"][1] if desc["observed"][0] == "err" else desc["observed"][0]))
+        if term is None:
+            run.fail("violation", "resolving a standard-library call raised an exception outside the documented error set",
+                     {"stdlib": desc})
+            continue
+        cases.append(term)
+        meta.append(desc)
+    bad = run.coq_mismatches(SHEADER, "scase", "(scase_ok reg_sub reg_fdefs)", cases, shard=300)
+    for i in bad[:10]:
+        run.fail("mismatch", "Model/Resolution.v fed with the registry rows and runner.py disagree on a standard-library call",
+                 {"stdlib": meta[i]})
 
 
 def oracle(run, deep):
